@@ -517,7 +517,7 @@ pub struct Report {
 /// process exit code.
 pub fn finish(ctx: &Ctx, mut st: Stats, rep: Report, wall_s: f64) -> i32 {
     let root = verif_root();
-    let mut violations = 0;
+    let mut violations: i64 = 0;
     let mut exit = 0;
 
     // known findings: tolerated only when listed in the committed file
@@ -579,6 +579,17 @@ pub fn finish(ctx: &Ctx, mut st: Stats, rep: Report, wall_s: f64) -> i32 {
     }
     for (k, v) in rep.extra {
         cov.insert(k, v);
+    }
+    // statistics of the libFuzzer stage (thorough tier of C03, C05, C06, C19), written by tools/fuzz_stage.sh
+    if let Ok(p) = std::env::var("VERIF_EXTRA") {
+        if let Ok(t) = std::fs::read_to_string(&p) {
+            if let Ok(v) = serde_json::from_str::<Value>(&t) {
+                if let Some(n) = v.get("confirmed_violations").and_then(|x| x.as_i64()) {
+                    violations += n;
+                }
+                cov.insert("libfuzzer".into(), v);
+            }
+        }
     }
 
     let mut ev = json!({
